@@ -3389,7 +3389,15 @@ impl Gen {
             _ => {
                 self.feat("fragment_struct_output");
                 let outs: Vec<usize> = (0..self.io.len()).filter(|&i| self.io[i].role == IoRole::FOut).collect();
-                let io = if !outs.is_empty() && self.rng.pct(35) {
+                // a location-only vertex input struct is also a legal fragment output (locations below 8)
+                let vins: Vec<usize> = (0..self.io.len())
+                    .filter(|&i| self.io[i].role == IoRole::VIn && self.io[i].builtins.is_empty() && !self.io[i].locs.is_empty())
+                    .filter(|&i| self.io[i].locs.iter().all(|l| *l < 8))
+                    .collect();
+                let io = if !vins.is_empty() && self.rng.pct(12) {
+                    self.feat("struct_vertex_input_and_fragment_output");
+                    *self.rng.pick(&vins)
+                } else if !outs.is_empty() && self.rng.pct(35) {
                     *self.rng.pick(&outs)
                 } else {
                     let n = self.rng.range(0, 4);
